@@ -46,10 +46,15 @@ type kvAddData struct {
 // in the graph, it is replaced
 func (kgdb *KVInterfaceGDB) AddVertex(vertices []*gdbi.Vertex) error {
 	inserted := 0
+	labels := newVertexLabels()
 	err := kgdb.kvg.kv.BulkWrite(func(tx kvi.KVBulkWrite) error {
 		var bulkErr *multierror.Error
 		for _, vert := range vertices {
-			if err := insertVertex(tx, kgdb.kvg.idx, kgdb.graph, vert.ToVertex()); err != nil {
+			v := vert.ToVertex()
+			if v.Validate() == nil {
+				labels.note(kgdb, v.Gid, v.Label)
+			}
+			if err := insertVertex(tx, kgdb.kvg.idx, kgdb.graph, v); err != nil {
 				bulkErr = multierror.Append(bulkErr, err)
 			} else {
 				inserted++
@@ -58,6 +63,9 @@ func (kgdb *KVInterfaceGDB) AddVertex(vertices []*gdbi.Vertex) error {
 		return bulkErr.ErrorOrNil()
 	})
 	if inserted > 0 {
+		if rerr := labels.unindexStale(kgdb); rerr != nil && err == nil {
+			err = rerr
+		}
 		kgdb.kvg.ts.Touch(kgdb.graph)
 	}
 	return err
@@ -147,6 +155,51 @@ func (kgdb *KVInterfaceGDB) removeStaleEdgeKeys(written map[string][]byte) error
 				return err
 			}
 		}
+		// the edge was re-labelled: the old label no longer indexes it
+		if _, _, _, _, newLabel, _ := EdgeKeyParse(written[eid]); newLabel != label {
+			if err := kgdb.kvg.unindexLabel(kgdb.graph, "e", label, eid); err != nil {
+				return err
+			}
+		}
+	}
+	return nil
+}
+
+// vertexLabels remembers, for the vertices of one write batch, the labels an id
+// carried before (in the store or earlier in the batch) and the label written
+// last, so that the label index can forget the labels a vertex no longer has.
+type vertexLabels struct {
+	before map[string]map[string]bool
+	final  map[string]string
+}
+
+func newVertexLabels() *vertexLabels {
+	return &vertexLabels{before: map[string]map[string]bool{}, final: map[string]string{}}
+}
+
+// note records that vertex id is about to be written with label
+func (vl *vertexLabels) note(kgdb *KVInterfaceGDB, id, label string) {
+	if _, seen := vl.final[id]; !seen {
+		vl.before[id] = map[string]bool{}
+		if old := kgdb.GetVertex(id, false); old != nil {
+			vl.before[id][old.Label] = true
+		}
+	} else {
+		vl.before[id][vl.final[id]] = true
+	}
+	vl.final[id] = label
+}
+
+// unindexStale removes the label-index entries of labels the written vertices no longer carry
+func (vl *vertexLabels) unindexStale(kgdb *KVInterfaceGDB) error {
+	for id, labels := range vl.before {
+		for label := range labels {
+			if label != vl.final[id] {
+				if err := kgdb.kvg.unindexLabel(kgdb.graph, "v", label, id); err != nil {
+					return err
+				}
+			}
+		}
 	}
 	return nil
 }
@@ -178,10 +231,14 @@ func (kgdb *KVInterfaceGDB) AddEdge(edges []*gdbi.Edge) error {
 func (kgdb *KVInterfaceGDB) BulkAdd(stream <-chan *gdbi.GraphElement) error {
 	inserted := 0
 	written := map[string][]byte{}
+	labels := newVertexLabels()
 	err := kgdb.kvg.kv.BulkWrite(func(tx kvi.KVBulkWrite) error {
 		var bulkErr *multierror.Error
 		for elem := range stream {
 			if elem.Vertex != nil {
+				if v := elem.Vertex.ToVertex(); v.Validate() == nil {
+					labels.note(kgdb, v.Gid, v.Label)
+				}
 				if err := insertVertex(tx, kgdb.kvg.idx, kgdb.graph, elem.Vertex.ToVertex()); err != nil {
 					bulkErr = multierror.Append(bulkErr, err)
 				} else {
@@ -207,6 +264,9 @@ func (kgdb *KVInterfaceGDB) BulkAdd(stream <-chan *gdbi.GraphElement) error {
 		}
 	}
 	if inserted > 0 {
+		if rerr := labels.unindexStale(kgdb); rerr != nil && err == nil {
+			err = rerr
+		}
 		kgdb.kvg.ts.Touch(kgdb.graph)
 	}
 	return err
